@@ -558,8 +558,13 @@ func TestRun(t *testing.T) {
 		if id != 0 {
 			return
 		}
-		for _, ext := range []uint32{0, 1, 0x7fff0000 - 65805, 0x7fffffff, 0x80000000, 0xfffeffff, 0xffffffff - 65805 - 12, 0xffffffff - 65805 - 2, 0xffffffff - 65805 - 1, 0xffffffff - 65805, 0xffffffff - 65804, 0xfffffff0, 0xffffffff} {
-			for tkl := 0; tkl <= 8; tkl += 4 {
+		exts := []uint32{0, 1, 0x7fff0000 - 65805, 0x7fffffff, 0x80000000, 0xfffeffff, 0xfffffff0, 0xffffffff}
+		// every value around the point where header + token + body stops fitting 32 bits, for every token length
+		for d := -24; d <= 3; d++ {
+			exts = append(exts, uint32(int64(0xffffffff-65805)+int64(d)))
+		}
+		for _, ext := range exts {
+			for tkl := 0; tkl <= 8; tkl++ {
 				s := []byte{0xf0 | byte(tkl), byte(ext >> 24), byte(ext >> 16), byte(ext >> 8), byte(ext), 0x01}
 				s = append(s, bytes.Repeat([]byte{0x55}, tkl)...)
 				w.checkTCP(s, "ext-length")
